@@ -28,5 +28,17 @@ def run(tier, seed, t0):
 
 
 def replay(path):
-    print("C02: re-run ./vcheck C02 (the replay file holds the operation history; obfs4 flights are regenerated per run)")
-    sys.exit(2)
+    import json
+    w = build()
+    tier = json.load(open(path)).get("tier", "quick")
+    out = vlib.run_worker(w, ["-replay", path, "-tier", tier], 600)
+    if "error" in out:
+        raise vlib.HarnessError(out["error"])
+    vs = out["results"][0].get("violations") or []
+    for v in vs:
+        print("  key=%s: %s" % (v["key"], v["what"][:400]))
+    if vs:
+        print("VIOLATION property=%s replay=%s" % (PID, path))
+        sys.exit(1)
+    print("replay: no violation")
+    sys.exit(0)
